@@ -293,6 +293,8 @@ func ruleEncodings(which string) ruleFn {
 					"nested path components are joined with `"+sep+"`", "nested upload paths are written with `"+l+"` but parsed by splitting on `"+sep+"`")
 			}
 			r.AtLeast(rule, "upload path literals", len(al)+len(el), 3)
+			r.checkCodecPair("R13f.codec", []*ssa.Function{add, ext}, []*ssa.Function{inj},
+				"an upload path", "the owning service cannot map the part back to the variable")
 			// list indexes are parsed as integers
 			hasAtoi := false
 			for _, ins := range allInstrs(inj) {
@@ -334,6 +336,10 @@ func ruleEncodings(which string) ruleFn {
 			r.Check(strings.Join(ws, " ") == strings.Join(rs, " ") && len(ws) == 2, rule, fnName(fip), "insertion-point separators", r.P.pos(fip.Pos()),
 				"FindInsertionPoints writes exactly the separators "+strings.Join(ws, " ")+" that Extract/isListElement parse",
 				"separators written into insertion points ("+strings.Join(ws, " ")+") differ from those parsed ("+strings.Join(rs, " ")+"): ids/indices are mis-parsed and results are stitched into the wrong place")
+			// R13f.codec: whatever encoding the writer applies to a component (the id), the reader
+			// undoes with the inverse function of the same family
+			r.checkCodecPair("R13f.codec", []*ssa.Function{fip}, []*ssa.Function{ex, ile},
+				"an insertion point", "ids that contain the characters on which the two functions differ are looked up under another id: the object's fields from other services silently disappear")
 			// the id is a free-form trailing component: it must be split off at the first '#' only
 			okTail := true
 			var site ssa.Instruction
@@ -483,4 +489,68 @@ func uniqSorted(in []string) []string {
 		}
 	}
 	return out
+}
+
+// codecInverse: library encoders and the functions that undo them.
+var codecInverse = map[string]string{
+	"net/url.PathEscape":                         "net/url.PathUnescape",
+	"net/url.QueryEscape":                        "net/url.QueryUnescape",
+	"(*encoding/base64.Encoding).EncodeToString": "(*encoding/base64.Encoding).DecodeString",
+	"encoding/hex.EncodeToString":                "encoding/hex.DecodeString",
+	"strconv.Quote":                              "strconv.Unquote",
+	"html.EscapeString":                          "html.UnescapeString",
+}
+
+// checkCodecPair: the library encoders called on the writing side (the given functions and the
+// functions of their package they call) are matched by their inverses on the reading side, and
+// the other way round. Neither side encoding anything is the trivial match.
+func (r *Run) checkCodecPair(rule string, writers, readers []*ssa.Function, what, consequence string) {
+	inv := map[string]string{}
+	for e, d := range codecInverse {
+		inv[e] = d
+		inv[d] = e
+	}
+	collect := func(roots []*ssa.Function) (map[string]ssa.Instruction, []string) {
+		found := map[string]ssa.Instruction{}
+		for g := range r.P.CG.Reachable(roots, nil) {
+			if topFn(g).Pkg != topFn(roots[0]).Pkg {
+				continue
+			}
+			for _, ins := range allInstrs(g) {
+				if ci, ok := ins.(ssa.CallInstruction); ok {
+					if n := calleeName(ci.Common()); inv[n] != "" {
+						found[n] = ins
+					}
+				}
+			}
+		}
+		var names []string
+		for n := range found {
+			names = append(names, n)
+		}
+		sort.Strings(names)
+		return found, names
+	}
+	w, wn := collect(writers)
+	rd, rn := collect(readers)
+	good := true
+	site := r.P.pos(writers[0].Pos())
+	why := ""
+	for _, n := range wn {
+		if rd[inv[n]] == nil {
+			good = false
+			site = r.P.pos(w[n].Pos())
+			why = "the writing side applies " + n + " but the reading side does not apply " + inv[n] + " (it applies: " + strings.Join(rn, ", ") + ")"
+		}
+	}
+	for _, n := range rn {
+		if w[inv[n]] == nil {
+			good = false
+			site = r.P.pos(rd[n].Pos())
+			why = "the reading side applies " + n + " but the writing side does not apply " + inv[n] + " (it applies: " + strings.Join(wn, ", ") + ")"
+		}
+	}
+	r.Check(good, rule, fnName(writers[0]), "encoding of "+what+" undone by its inverse", site,
+		"writer and reader apply matching library encodings ("+fmt.Sprint(len(wn))+" on the writing side)",
+		"the components of "+what+" are encoded and decoded by functions that are not inverses of each other: "+why+" — "+consequence)
 }
